@@ -115,7 +115,7 @@ CONFIG = {
         "assumptions": ["strsim scores are oracle rows", "WF as for C01"],
     },
     "C03": {
-        "lean_modules": ["Darling.Props.C03", "Darling.Props.C03Recv"],
+        "lean_modules": ["Darling.Props.C03", "Darling.Props.C03Recv", "Darling.Props.C03Universe", "Darling.Props.C03Recv2"],
         "streams": [
             # error-algebra part: the same histories as C04, with spans compared
             {"name": "c04", "n": {"quick": 20000, "thorough": 400000},
@@ -160,7 +160,7 @@ CONFIG = {
         "partial": "token content of attribute bodies beyond the chaos grammar is not enumerated",
     },
     "C10": {
-        "lean_modules": ["Darling.Props.C10"],
+        "lean_modules": ["Darling.Props.C10", "Darling.Props.C10Spec"],
         "streams": [
             {"name": "c10", "n": {"quick": 1000, "thorough": 200000}, "trivial": lambda case, ans: False},
             {"name": "c06", "n": {"quick": 3000, "thorough": 50000}, "trivial": lambda case, ans: False},
